@@ -712,6 +712,7 @@ impl LinkRelay<OutputHandle> {
                         Some(s) => s.is_terminal(),
                         None => false, // Probably should not assume the state is not specified
                     };
+                    let in_progress = matches!(&state, None | Some(DeliveryState::Received(_)));
                     {
                         let mut guard = unsettled.write();
                         // Once the receiving application has finished processing the message,
@@ -741,8 +742,10 @@ impl LinkRelay<OutputHandle> {
                             // the sender and receiving a disposition indicating settlement of the
                             // delivery from the sender.
 
-                            // is_terminal
-                            true
+                            // Only what the receiver has reported as the end of its
+                            // processing is settled: a delivery still in progress
+                            // (`Received`, or no state at all) stays unsettled on both sides.
+                            !in_progress
                         }
                     }
                 };
